@@ -146,10 +146,12 @@ pub enum Ty {
     V,
     /// `Arc<LS>`: Arc of a type that opts out of hot-reloading
     ALS,
+    /// `OnceInitCell<LS, i64>`: the other wrapper that forwards `HOT_RELOADED`
+    OLS,
 }
 impl Ty {
     pub fn reloadable(self) -> bool {
-        !matches!(self, Ty::LS | Ty::V | Ty::ALS)
+        !matches!(self, Ty::LS | Ty::V | Ty::ALS | Ty::OLS)
     }
     pub fn parse(s: &str) -> Ty {
         match s {
@@ -162,6 +164,7 @@ impl Ty {
             "RecL" => Ty::RecL,
             "V" => Ty::V,
             "ALS" => Ty::ALS,
+            "OLS" => Ty::OLS,
             _ => panic!("bad type {s}"),
         }
     }
@@ -495,7 +498,7 @@ impl Eval {
         let parse = |s: &str| -> Result<String, EvErr> { s.trim().parse::<i64>().map(|n| n.to_string()).map_err(|_| EvErr::Err("parse".into())) };
         let r = (|| -> Result<String, EvErr> {
             match ty {
-                Ty::L | Ty::LS | Ty::ALS => {
+                Ty::L | Ty::LS | Ty::ALS | Ty::OLS => {
                     deps.insert(Dep::File(id.clone(), "l".into()));
                     parse(&self.read(v, other, id, "l")?)
                 }
@@ -967,7 +970,7 @@ impl World {
     pub fn universe(&self) -> Vec<Key> {
         let mut u = vec![];
         for l in &self.cfg.leaves {
-            for t in [Ty::L, Ty::L2, Ty::LS, Ty::P, Ty::V, Ty::ALS] {
+            for t in [Ty::L, Ty::L2, Ty::LS, Ty::P, Ty::V, Ty::ALS, Ty::OLS] {
                 u.push((t, l.clone()));
             }
         }
@@ -1002,6 +1005,7 @@ impl World {
             Ty::P => pk!(P, |x| x.v.to_string()),
             Ty::V => pk!(V, |x| x.v.to_string()),
             Ty::ALS => pk!(std::sync::Arc<LS>, |x| x.v.to_string()),
+            Ty::OLS => pk!(assets_manager::OnceInitCell<LS, i64>, |x| x.get_or_init(|seed| seed.v).to_string()),
             Ty::N => pk!(N, |x| x.text.clone()),
             Ty::DirL => pk!(assets_manager::Directory<L>, |x| fmt_ids(x.ids())),
             Ty::RecL => pk!(assets_manager::RecursiveDirectory<L>, |x| fmt_ids(x.ids())),
@@ -1335,6 +1339,7 @@ impl World {
                     Ty::LS => go!(LS, |x| x.v.to_string()),
                     Ty::P => go!(P, |x| x.v.to_string()),
                     Ty::ALS => go!(std::sync::Arc<LS>, |x| x.v.to_string()),
+                    Ty::OLS => go!(assets_manager::OnceInitCell<LS, i64>, |x| x.get_or_init(|seed| seed.v).to_string()),
                     Ty::N => go!(N, |x| x.text.clone()),
                     Ty::DirL => go!(assets_manager::Directory<L>, |x| fmt_ids(x.ids())),
                     Ty::RecL => go!(assets_manager::RecursiveDirectory<L>, |x| fmt_ids(x.ids())),
@@ -1430,6 +1435,7 @@ impl World {
                     Ty::P => rm!(P),
                     Ty::V => rm!(V),
                     Ty::ALS => rm!(std::sync::Arc<LS>),
+                    Ty::OLS => rm!(assets_manager::OnceInitCell<LS, i64>),
                     Ty::N => rm!(N),
                     Ty::DirL => rm!(assets_manager::Directory<L>),
                     Ty::RecL => rm!(assets_manager::RecursiveDirectory<L>),
